@@ -59,7 +59,9 @@ class Style:
 
     def comment(self):
         r = self.rng
-        return "#" + r.choice(["", " note", " 2024-01-01 BUY X 1 @ 1", " FEES 5 GBP", "#", " üñí", " \t tab", " # nested"])
+        return "#" + r.choice(["", " note", " 2024-01-01 BUY X 1 @ 1", " FEES 5 GBP", "#", " üñí", " \t tab", " # nested",
+                               " exported from \\\\nas01\\brokers\\new", " C:\\notes\\2024 \\n \\r\\n \\t", " \"quoted\" 'text' {json: [1]}",
+                               " %s %d {0} $HOME `x`", " \\"])
 
 
 def money_tokens(st: Style, m, allow_omit_gbp=True):
